@@ -64,6 +64,13 @@ SEEDS = [
       ['Check', 'INBOX'], ['Append', 'INBOX', ['\\Flagged']], ['Select', 'INBOX'],
       ['Store', 'INBOX', 2, 'add', '\\Deleted'], ['Expunge', 'INBOX'], ['Check', 'INBOX'],
       ['Copy', 'INBOX', 1, 'INBOX']]),
+    ('names-ending-in-space', False,
+     [['Create', 'Box '], ['Subscribe', 'Box '], ['Append', 'Box ', ['\\Seen']], ['Subscribe', 'Arch'],
+      ['Select', 'Box '], ['Unsubscribe', 'Arch']]),
+    ('control-file-names', False,
+     [['Create', 'subscriptions'], ['Subscribe', 'subscriptions'], ['Create', 'cur'],
+      ['Append', 'INBOX', []], ['Select', 'INBOX'], ['Create', 'dovecot-uidlist.lock'],
+      ['Subscribe', 'Box'], ['Create', 'tmp'], ['Append', 'INBOX', ['\\Flagged']]]),
     ('nested-rename', False,
      [['Create', 'Box'], ['Create', 'Box/sub'], ['Append', 'Box/sub', ['\\Seen']],
       ['Append', 'Box', []], ['Subscribe', 'Box/sub'], ['Rename', 'Box', 'Arch'],
